@@ -107,6 +107,9 @@ def main(argv=None):
             continue
         new_viol += 1
         snippet = mod.snippet(case, kind) if hasattr(mod, 'snippet') else None
+        if hasattr(mod, 'replay_case'):
+            case = mod.replay_case(case, kind, msg)
+            msg = msg.split(' ##HIST')[0]
         path = evidence.write_replay(pid, kind, case, msg, snippet)
         viol_lines.append((kind, count, msg, path))
 
